@@ -55,22 +55,15 @@ func raceBinary(env *vh.Env, rep *vh.Report) string {
 	return bin
 }
 
-func runChildProc(bin string, mode string, env *vh.Env) (stdout, stderr []byte, err error) {
-	cmd := exec.Command(bin, "-child", mode, "-tier", env.Tier, "-seed", fmt.Sprint(env.Seed), "-repo", env.Repo)
+func runChildProc(bin string, mode string, env *vh.Env, limit time.Duration) (stdout, stderr []byte, err error) {
+	cmd := exec.Command(bin, "-child", mode, "-tier", env.Tier, "-seed", fmt.Sprint(env.Seed), "-repo", env.Repo,
+		"-deadline", fmt.Sprint(time.Now().Add(limit*3/4).Unix())) // the child aims at 3/4 of the budget: finishing its current item, the race runtime's exit work and writing the output take time on a busy machine
 	cmd.Env = append(os.Environ(), "GORACE=halt_on_error=0 exitcode=0 history_size=3", "VERIF_SKIP_TYPES="+deadList())
 	var o, e bytes.Buffer
 	cmd.Stdout, cmd.Stderr = &o, &e
-	done := make(chan error, 1)
-	if err := cmd.Start(); err != nil {
-		return nil, nil, err
-	}
-	go func() { done <- cmd.Wait() }()
-	select {
-	case err = <-done:
-	case <-time.After(20 * time.Minute):
-		cmd.Process.Kill()
-		err = fmt.Errorf("race child timed out")
-	}
+	// soft deadline inside the child (it finishes its current item and writes its output), hard limit
+	// 40 s later: the whole process group is killed
+	err = runChild2(cmd, limit+60*time.Second)
 	return o.Bytes(), e.Bytes(), err
 }
 
@@ -131,7 +124,9 @@ func race(env *vh.Env, rep *vh.Report) {
 		rep.Count("race:not-run")
 		return
 	}
-	stdout, stderr, err := runChildProc(bin, "pairs", env)
+	ph := phaseBegin(env, "race-pairs")
+	defer ph.finish(rep)
+	stdout, stderr, err := runChildProc(bin, "pairs", env, ph.remaining())
 	if err != nil {
 		rep.Note("race child (pairs) failed: %v: %s", err, vh.Clip(string(stderr), 400))
 		rep.Fail("correspondence", "race-child:failed", "the race child did not complete", string(stderr[:min(len(stderr), 2000)]))
@@ -139,6 +134,9 @@ func race(env *vh.Env, rep *vh.Report) {
 	}
 	var pairs []string
 	json.Unmarshal(stdout, &pairs)
+	if bytes.Contains(stderr, []byte("##CUT-SHORT")) {
+		ph.cut = true
+	}
 	for _, p := range pairs {
 		rep.Case("race-pair "+p, true)
 	}
@@ -244,14 +242,14 @@ func stackOf(text string, i int) string {
 }
 
 func childStress(env *vh.Env, rep *vh.Report) *stressOut {
-	stdout, stderr, err := runChildProc(os.Args[0], "stress", env)
+	stdout, stderr, err := runChildProc(os.Args[0], "stress", env, stressBudget(env))
 	if err != nil {
 		rep.Note("race child (stress) failed: %v", err)
 		return nil
 	}
 	var out stressOut
-	if json.Unmarshal(stdout, &out) != nil {
-		rep.Note("race child (stress): unreadable output")
+	if jerr := json.Unmarshal(stdout, &out); jerr != nil {
+		rep.Note("race child (stress): unreadable output (%v; %d bytes: %s … stderr tail: %s)", jerr, len(stdout), vh.Clip(string(stdout), 120), vh.Clip(string(stderr[max(0, len(stderr)-300):]), 300))
 		return nil
 	}
 	seen := map[string]bool{}
@@ -282,6 +280,7 @@ func childStress(env *vh.Env, rep *vh.Report) *stressOut {
 // ---------------------------------------------------------------- child side
 
 func runChild(mode string, env *vh.Env) {
+	childWatchdog()
 	mark := func(s string) { fmt.Fprintln(os.Stderr, s) }
 	switch mode {
 	case "stress":
@@ -297,6 +296,10 @@ func runChild(mode string, env *vh.Env) {
 		for _, c := range ctors {
 			if isDead(c.name) {
 				continue
+			}
+			if childOver() {
+				mark("##CUT-SHORT pairs at " + c.name)
+				break
 			}
 			// the mutators against themselves first: if they race with each other, every other pair of
 			// this type would only repeat that
